@@ -85,6 +85,11 @@ func checkCLI(c cliCase) (kind string, msg string) {
 	for _, a := range c.Args {
 		a = strings.ReplaceAll(a, "{IN}", inPath)
 		a = strings.ReplaceAll(a, "{OUT}", outDir)
+		// other spellings of the same places (the command runs in the case's root directory)
+		a = strings.ReplaceAll(a, "{RIN}", c.In)
+		a = strings.ReplaceAll(a, "{ROUT}", c.Out)
+		a = strings.ReplaceAll(a, "{DOTIN}", "./"+filepath.Dir(c.In)+"/./"+filepath.Base(c.In))
+		a = strings.ReplaceAll(a, "{DOTOUT}", "./"+c.Out+"/.")
 		args = append(args, a)
 	}
 	before := snapshot(root)
@@ -247,7 +252,7 @@ func init() {
 
 func TestC19(t *testing.T) {
 	r, e := start(t, "C19",
-		"invocations of the tsh binary built from the current tree: the -i/--in, -o/--out, -t/--type pairs in every order and spelling, 1-4 targets in any order with repetitions, input names (a.tsh, a.b.c.tsh, noext, 'sp ace.tsh', .hidden.tsh, one-character x, -.tsh, a.tsh.tsh, directories with dots), accepted programs (incl. imports relative to the input and std beside the binary) and rejected ones (lexical, syntax, type errors, missing import), bad invocations (unknown switch/target, missing -i/-o/-t, missing value, a surplus last argument, missing input, input is a directory, output missing / a file, the target file's name taken by a directory, the input lying in the output directory under the name of its own output), output directory pre-populated with decoys and stale outputs. Oracle: exit status; every requested target's file holds exactly the bytes the library returns in process; nothing else in the tree changes; on failure the failing target's file is untouched. Non-trivial = two or more targets, a repeated target, an unusual file name or a failing run; distinct by invocation + sources.",
+		"invocations of the tsh binary built from the current tree: the -i/--in, -o/--out, -t/--type pairs in every order and spelling, 1-4 targets in any order with repetitions, input names (a.tsh, a.b.c.tsh, noext, 'sp ace.tsh', .hidden.tsh, one-character x, -.tsh, a.tsh.tsh, directories with dots), accepted programs (incl. imports relative to the input and std beside the binary) and rejected ones (lexical, syntax, type errors, missing import), bad invocations (unknown switch/target, missing -i/-o/-t, missing value, a surplus last argument, missing input, input is a directory, output missing / a file, the target file's name taken by a directory, the input lying in the output directory under the name of its own output), input and output directory spelled absolutely, relatively or with redundant ./ parts, output directory pre-populated with decoys and stale outputs. Oracle: exit status; every requested target's file holds exactly the bytes the library returns in process; nothing else in the tree changes; on failure the failing target's file is untouched. Non-trivial = two or more targets, a repeated target, an unusual file name or a failing run; distinct by invocation + sources.",
 		[]string{"targets converted successfully before a failing target may already have been written (the statement only speaks about the failing target)"})
 	defer r.Flush()
 	_ = e
@@ -293,7 +298,16 @@ func TestC19(t *testing.T) {
 			c.Pre[base+".bat"] = "@echo stale\r\n"
 		}
 		// option pairs in random order and spelling
-		pairs := [][]string{{[]string{"-i", "--in"}[gen.Uniform(0, 1).Draw(t, "i-spelling")], "{IN}"}, {[]string{"-o", "--out"}[gen.Uniform(0, 1).Draw(t, "o-spelling")], "{OUT}"}}
+		// the input and the output directory are given absolutely, relative to the working directory, or with redundant ./ parts
+		inSp := []string{"{IN}", "{IN}", "{RIN}", "{DOTIN}"}[gen.Uniform(0, 3).Draw(t, "in-path-spelling")]
+		outSp := []string{"{OUT}", "{OUT}", "{ROUT}", "{DOTOUT}"}[gen.Uniform(0, 3).Draw(t, "out-path-spelling")]
+		if strings.HasPrefix(name, "-") && inSp == "{RIN}" && dir == "." {
+			inSp = "{IN}" // a relative path that starts with a dash would be read as ... a value anyway; keep it simple
+		}
+		if inSp != "{IN}" || outSp != "{OUT}" {
+			r.Class("relative-path-spelling")
+		}
+		pairs := [][]string{{[]string{"-i", "--in"}[gen.Uniform(0, 1).Draw(t, "i-spelling")], inSp}, {[]string{"-o", "--out"}[gen.Uniform(0, 1).Draw(t, "o-spelling")], outSp}}
 		for _, tg := range c.Targets {
 			pairs = append(pairs, []string{[]string{"-t", "--type"}[gen.Uniform(0, 1).Draw(t, "t-spelling")], tg})
 		}
